@@ -280,6 +280,13 @@ class VSocket(socket.socket):
         return got
 
     def recv(self, bufsize, *flags):
+        if flags and flags[0] & socket.MSG_PEEK:
+            # a peek consumes nothing and is not an I/O step of the scenario: no fault, no RECV event
+            self._peer.pump()
+            try:
+                return super().recv(bufsize, flags[0] | socket.MSG_DONTWAIT)
+            except (BlockingIOError, InterruptedError):
+                raise socket.timeout("timed out") from None
         b = bytearray(bufsize)
         n = self.recv_into(b, bufsize)
         return bytes(b[:n])
